@@ -302,6 +302,9 @@ func genReq(rt *rapid.T, l string, faulty bool) Req {
 		r.Query = mutate(rt, l+".m", r.Query)
 	}
 	r.Result = genResult(rt, l+".res", faulty)
+	if faulty && (r.Kind == "trace" || r.Kind == "trace_json" || r.Kind == "search") {
+		r.Result.TraceShape = rapid.SampledFrom([]int{0, 0, 1, 2, 3}).Draw(rt, l+".traceshape")
+	}
 	if strings.HasPrefix(r.Kind, "prof") || r.Kind == "render_diff" {
 		// what the Pyroscope tables hold: well formed, or (with faults on) any shape a database can return
 		shapes := []int{0, 0, 0, 3, 8}
